@@ -24,6 +24,8 @@ DECIDED_MORE = ('Also: the URL parts are collected in a list created by the call
 DECIDED = DECIDED + ' ' + DECIDED_MORE
 DECIDED_R6 = ('Round 6: the trailing literal is emitted whenever it is not empty; the following literal reaches the validation call on every path; the params filter tests the name only.')
 DECIDED = DECIDED + ' ' + DECIDED_R6
+DECIDED_R7 = ('Round 7: premises from the matcher (C01.c back-tracking copies, C11.e filter comparison, C11.b remove_hook keeps names).')
+DECIDED = DECIDED + ' ' + DECIDED_R7
 NOT_DECIDED = 'match o build = identity over all runtime strings (regex semantics of user filters; float repr of exponent forms).'
 ASSUMPTIONS = ['str(int(x)) / str(float(x)) round-trip through int / float', 'pattern_out contains one marker character per wildcard']
 
